@@ -16,7 +16,7 @@ TEXT = ("Loopy.tla models loopyWriter.handle for every control item kind and pro
         "windows, the WINDOW_UPDATE / SETTINGS the scripted peer sent and the SETTINGS ACK / DATA frames on the wire, per-stream "
         "byte cursors from self-describing payload bytes, end-of-stream state and a round-robin debt set. TLC checks exhaustively "
         "on scaled constants (frame 4, prefix 1, two streams, client and server side) that Level I never trips a Level-A clause and "
-        "keeps the quota/ledger, active-list and eligibility invariants; four one-line spec mutations are the negative controls. "
+        "keeps the quota/ledger, active-list and eligibility invariants; five one-line spec mutations are the negative controls. "
         "Every transition of real-size state graphs (payloads 0/1/16379/16384/20000, increments 1/5/16384/65535, initial windows "
         "0/5/16384/65535/70000) and seeded random histories of hundreds of items over up to six concurrent streams are executed on a "
         "real loopyWriter (handle / processData called directly, bytes decoded by an independent http2.Framer after every step), and "
@@ -30,7 +30,7 @@ CLAUSES = {
     "C02": "C02_Order C02_Excess C02_FrameAfterEnd C02_EndStreamEarly C02_TrailersEarly C02_EndMissing",
     "C03": "C03_Strand C03_Starved",
 }
-NEG = {"C01": [("LoopyNegC01.cfg", "I_C01")], "C02": [("LoopyNegC02.cfg", "I_C02")],
+NEG = {"C01": [("LoopyNegC01.cfg", "I_C01")], "C02": [("LoopyNegC02.cfg", "I_C02"), ("LoopyNegC02b.cfg", "I_C02")],
        "C03": [("LoopyNegC03.cfg", "I_C03"), ("LoopyNegC03b.cfg", "I_C03")]}
 
 
@@ -93,6 +93,12 @@ def step_of(state_text, label):
         return st("settings", 0, n=I(0))
     if name == "NoiseT":
         return st("noise", 0, n=I(0))
+    if name == "LateHdrT":
+        return st("hdr", I(0))
+    if name == "LateDataT":
+        return st("data", I(0), n=1, h=5)
+    if name == "LateTrailersT":
+        return st("trailers", I(0))
     if name == "PDT":
         return st("pd")
     raise Inconclusive("unknown action label " + label)
@@ -119,7 +125,7 @@ def features(state_text):
             head = (it["k"], it["es"], _qclass(it["h"] + it["d"]), 0 if it["h"] == 0 else 1 if it["h"] < HDR else 2)
         per[s] = (m["st"][s], _qclass(m["oiws"] - m["out"][s]), min(len(q), 2), head, q[1]["k"] if len(q) > 1 else "-",
                   -1 if s not in al else 0 if al[0] == s else 1)
-    return {"sq": _qclass(m["sq"]), "al": al, "per": per}
+    return {"sq": _qclass(m["sq"]), "al": al, "per": per, "afin": g["afin"], "wfin": g["wfin"]}
 
 
 def edge_key(f, label):
@@ -127,10 +133,12 @@ def edge_key(f, label):
     m = re.match(r'(\w+)(?:\((.*)\))?\s*$', label.strip())
     name, args = m.group(1), _split_args(m.group(2) or "")
     per = f["per"]
-    if name in ("OpenT", "HdrT", "DataT", "EmptyEndT", "TrailersT", "CleanupT", "AbortT", "StrWUT"):
+    if name in ("OpenT", "HdrT", "DataT", "EmptyEndT", "TrailersT", "CleanupT", "AbortT", "StrWUT",
+                "LateHdrT", "LateDataT", "LateTrailersT"):
         s = int(args[0])
         others = tuple(sorted(v[0] for k, v in per.items() if k != s))
-        return (name, tuple(args[1:]), f["sq"], per[s], others)
+        late = (f["afin"][s], f["wfin"][s]) if name.startswith("Late") else ()
+        return (name, tuple(args[1:]), f["sq"], per[s], others, late)
     if name == "PDT":
         h = f["al"][0] if f["al"] else None
         others = tuple(sorted((v[0], v[5]) for k, v in per.items() if k != h))
@@ -184,8 +192,11 @@ def select_behaviours(ctx, g, limit):
                 core.append((u, a))
     nkeys, nedges = len(core), len(core) + len(rest)
     if limit is not None and len(core) > limit:
-        ctx.rng.shuffle(core)
-        core = core[:limit]
+        # over budget: the classes of the late (raced) items are always kept, the others are sampled
+        prio = [e for e in core if e[1].startswith("Late")]
+        other = [e for e in core if not e[1].startswith("Late")]
+        ctx.rng.shuffle(other)
+        core = (prio + other)[:max(limit, len(prio))]
         rest = []
     if limit is not None:
         ctx.rng.shuffle(rest)
